@@ -131,10 +131,11 @@ def lines_preserved(before: bytes, after: bytes):
 class C14(Check):
     id = "C14"
     level = "exploration"
-    rule = ("experiment = one trigger file of a dependency-adding codemod (5 codemods) + 0-4 manifests drawn from the fixed 96-shape "
+    rule = ("experiment = one trigger file of a dependency-adding codemod (5 codemods) + 0-4 manifests drawn from the fixed 116-shape "
             "manifest corpus (4 formats) placed at root / sub-directories x directory enumeration permutation (store discovery order) x "
-            "history (run, identical re-run) x unwritable-manifest faults (EACCES / EROFS at open-for-write on each store in turn, on all "
-            "stores, or none present); non-trivial = the codemod changed the source file, i.e. a dependency was actually needed; "
+            "history (run, identical re-run) x manifest faults (EACCES / EROFS at open-for-write on each store in turn, on all stores, or "
+            "none present; vanish / EIO / EACCES at the n-th read of the chosen store; ENOSPC / short write / EIO while it is being "
+            "rewritten, ENOSPC at close); non-trivial = the codemod changed the source file, i.e. a dependency was actually needed; "
             "distinct = by experiment digest. The manifest TEXT dimension is a fixed sample, not searched.")
     assumptions = [
         "scoped: simulation varies store set / discovery order / history / write faults; manifest texts are the vendored corpus",
@@ -180,6 +181,13 @@ class C14(Check):
                                  "files": [{"path": "pkg/app.py", "snippets": [r["idx"]], "layout": {}}, {"path": names[a]["file"], "manifest": names[a]["idx"]}],
                                  "enum_seeds": [None, None], "faults": "read-fault", "fault_kind": rk, "fault_nth": nth, "fault_pick": 0,
                                  "sched": {"seed": 0, "policy": "fifo", "line_p": 0.0}})
+        # the disk fills up / a write fails WHILE the chosen manifest is being rewritten (after it was opened and truncated)
+        for a in plain:
+            for wk in ("enospc-on-write", "short-write", "eio-on-write"):
+                exps.append({"kind": "write-fault", "include": ["pixee:python/url-sandbox"],
+                             "files": [{"path": "pkg/app.py", "snippets": [r["idx"]], "layout": {}}, {"path": names[a]["file"], "manifest": names[a]["idx"]}],
+                             "enum_seeds": [None, None], "faults": "write-fault", "fault_kind": wk, "fault_pick": 0,
+                             "sched": {"seed": 0, "policy": "fifo", "line_p": 0.0}})
         # several dependency-adding codemods in ONE run (same package twice, already declared package first, ...)
         seqs = [["pixee:python/url-sandbox", "pixee:python/sandbox-process-creation", "pixee:python/harden-pickle-load"],
                 ["pixee:python/url-sandbox", "pixee:python/use-defusedxml"],
@@ -224,8 +232,10 @@ class C14(Check):
                 continue
             used.add(p)
             files.append({"path": p, "manifest": m["idx"]})
-        faults = rng.choice(["none", "none", "none", "first", "all", "one-random", "read-fault"])
-        fk = rng.choice(["open-eacces", "open-erofs"]) if faults != "read-fault" else rng.choice(["vanish-before-read", "read-eio", "read-eacces"])
+        faults = rng.choice(["none", "none", "none", "first", "all", "one-random", "read-fault", "write-fault"])
+        fk = {"read-fault": ["vanish-before-read", "read-eio", "read-eacces"], "write-fault": ["enospc-on-write", "short-write", "eio-on-write", "enospc-on-close"]}.get(
+            faults, ["open-eacces", "open-erofs"])
+        fk = rng.choice(fk)
         return {"kind": f"stores:{k}:{faults}", "include": [cid], "files": files, "enum_seeds": [rng.randrange(1000), rng.randrange(1000)],
                 "faults": faults, "fault_kind": fk, "fault_nth": rng.choice([1, 2, 2, 3]), "fault_pick": rng.randrange(8),
                 "sched": G.rand_sched(rng, 2)}
@@ -255,6 +265,10 @@ class C14(Check):
             chosen = [p for p in manifests if p in first["changed"]] or manifests
             plan = [{"op": "open-read", "path": "<T>/" + chosen[exp["fault_pick"] % len(chosen)], "kind": fk, "nth": exp.get("fault_nth", 2)}]
             first = ctx.run(dict(base, name="run-read-faulted", world=world, enum_seed=exp["enum_seeds"][0], faults=plan))
+        if exp["faults"] == "write-fault" and manifests:
+            chosen = [p for p in manifests if p in first["changed"]] or manifests
+            plan = [{"op": "write", "path": "<T>/" + chosen[exp["fault_pick"] % len(chosen)], "kind": fk}]
+            first = ctx.run(dict(base, name="run-write-faulted", world=world, enum_seed=exp["enum_seeds"][0], faults=plan))
         files2 = W.apply_changes(world["files"], first["changed"])
         second = ctx.run(dict(base, name="rerun", world=dict(world, files=files2), enum_seed=exp["enum_seeds"][1], faults=[]))
         return {"first": first, "second": second, "manifests": manifests, "orig": world["files"], "plan": plan, "meta": meta["files"]}
@@ -312,6 +326,8 @@ class C14(Check):
             return m.get("name", p)
 
         def add(clause, what, detail):
+            if exp["faults"] == "write-fault":
+                what += ":write-fault"  # findings under a failing write are keyed apart from the fault-free ones
             v.append({"clause": clause, "key": f"C14:{clause}:{what}", "detail": dict(detail, codemod=cid, manifests=[mname(p) for p in manifests], faults=exp["faults"])})
 
         if first["status"] != 0 or first["exception"]:
@@ -320,8 +336,9 @@ class C14(Check):
             return v
         src_changed = any(p.endswith(".py") and p.rsplit("/", 1)[-1] != "setup.py" for p in first["changed"])
         outcomes["_needed"] = src_changed
+        # (judged by the bytes the run leaves behind: a failed write that is put back is not an update)
         written = sorted({w["path"][4:] for w in first["writes"] if w["path"].startswith("<T>/") and w["path"][4:] in manifests and w["after"] is not None
-                          and w["before"] != w["after"]})
+                          and w["before"] != w["after"]} & set(first["changed"]))
         touched = sorted({m[1][4:] for m in first["mutations"] if m[1].startswith("<T>/") and m[1][4:] in manifests})
         faulted = {p["path"][4:] for p in outcomes["plan"]}
         if len(written) > 1:
@@ -387,7 +404,7 @@ class C14(Check):
         # (a manifest whose n-th READ fails may well have been updated before that read: the clause is about write faults)
         for p in faulted if exp["faults"] != "read-fault" else ():
             if p in first["changed"]:
-                add("unwritable-manifest-changed", mname(p), {"path": p})
+                add("unwritable-manifest-changed" if exp["faults"] != "write-fault" else "manifest-damaged-by-failed-write", mname(p), {"path": p})
         return v
 
     def nontrivial(self, exp, outcomes):
